@@ -222,7 +222,10 @@ func checkC11(c *ctx) {
 		e, err := newBuilt(c, b, randMode(c), c.R.Bool())
 		must(err)
 		ans, err := sequential(e.seg)
-		must(err)
+		if err != nil {
+			c.Violation(fmt.Sprintf("C11 reading a %s segment sequentially (complete dump, then DocID of every document) before any concurrent use: %v\nbatch: %s", e.prov, err, clip(b.Sx().String())), false)
+			return
+		}
 		// ---- a preceding history that shapes the pool, checked against the pool model ----
 		var calls []uint64
 		for k := c.R.Intn(6); k > 0; k-- {
@@ -279,6 +282,24 @@ func checkC11(c *ctx) {
 			}
 		}
 		mc := &mergeCase{ins: []*segEnt{e}, drops: [][]uint64{drops}, nilBM: []bool{false}, mode: 1026}
+		var e2 *segEnt
+		if c.R.Bool() {
+			// a second input with another field list (the merged field list differs from the shared segment's)
+			o2 := zh.RandOpts(c.R, 1+c.R.Intn(4), "d")
+			perm := []int{6, 5, 4, 3, 2, 1, 0}
+			o2.NFields = 1 + c.R.Intn(3)
+			o2.FieldSel, o2.FixedFields = perm[c.R.Intn(4):], true
+			var err error
+			e2, err = newBuilt(c, zh.GenBatch(c.R, o2), 1026, false)
+			must(err)
+			mc = &mergeCase{ins: []*segEnt{e, e2}, drops: [][]uint64{drops, nil}, nilBM: []bool{false, true}, mode: 1026}
+			c.Count("merges_with_a_second_input")
+		}
+		mergeSegs := make([]segment.Segment, len(mc.ins))
+		for j, in := range mc.ins {
+			mergeSegs[j] = in.seg
+		}
+		mergeDrops := mc.bitmaps()
 		mspec, _ := specMerge(c, mc)
 		for j := 0; j < merges; j++ {
 			wg.Add(1)
@@ -293,7 +314,7 @@ func checkC11(c *ctx) {
 							merr = fmt.Errorf("PANIC %v", r)
 						}
 					}()
-					_, _, merr = zap.VerifMerge([]segment.Segment{e.seg}, []*roaring.Bitmap{bitmapOf(drops)}, path, 1026, nil, nil)
+					_, _, merr = zap.VerifMerge(mergeSegs, mergeDrops, path, 1026, nil, nil)
 				}()
 				if merr != nil {
 					errs <- "concurrent merge failed: " + merr.Error()
